@@ -134,7 +134,7 @@ def scan(source: str, callback: callable):
                 state.expression += 1
             elif scanner.eat(Chars.RightRound):
                 state.expression -= 1
-            elif not literal(scanner):
+            elif not literal(scanner) and not scanner.eof():
                 scanner.pos += 1
 
             state.end = scanner.pos
